@@ -82,6 +82,11 @@ def run(run):
     run.check("R1", len(ch) == 1, "one chunked send per header", key="_send_block_header|chunked", where=sbh.loc(), message=f"{len(ch)} chunked sends")
     for c in ch:
         kws = {k.arg: norm(k.value) for k in c.keywords}
+        sdc = P.method(D, "_send_data_in_chunks")
+        a_ = sdc.node.args
+        ps_ = [x.arg for x in a_.args]
+        for nm_, dv_ in zip(ps_[len(ps_) - len(a_.defaults):], a_.defaults):
+            kws.setdefault(nm_, norm(dv_))       # arguments left to their defaults
         run.check("R1", kws.get("command") == "command" and kws.get("operation") == "op_chunk" and kws.get("data") == "bytes.fromhex(block)"
                   and kws.get("expect_full_data") == "False" and kws.get("initial_bytes") == "bytes_requested"
                   and kws.get("next_operations") == "next_operations",
